@@ -25,12 +25,24 @@ use std::time::{Duration, Instant};
 use super::{invoker_doc, peer_doc, NS};
 
 /// `<send eventexpr="v" targetexpr="v"/>`: both expressions evaluate to the cell of variable `v`
+/// (the event `#_internal` goes to the internal queue and takes the session to its final state)
 fn relock_doc() -> String {
     format!(
         "<scxml {NS} datamodel=\"rfsm-expression\" initial=\"s0\">\
          <datamodel><data id=\"v\" expr=\"'#_internal'\"/></datamodel>\
          <state id=\"s0\"><transition event=\"go\" target=\"s1\"/></state>\
          <state id=\"s1\"><onentry><send eventexpr=\"v\" targetexpr=\"v\"/></onentry>\
+          <transition event=\"*\" target=\"end\"/></state><final id=\"end\"/></scxml>"
+    )
+}
+
+/// `a[a]`: the indexed cell and the index are the cell of variable `a`
+fn index_self_doc() -> String {
+    format!(
+        "<scxml {NS} datamodel=\"rfsm-expression\" initial=\"s0\">\
+         <datamodel><data id=\"a\" expr=\"[1,2]\"/></datamodel>\
+         <state id=\"s0\"><transition event=\"go\" target=\"s1\"/></state>\
+         <state id=\"s1\"><onentry><script>a[a]</script></onentry>\
           <transition event=\"*\" target=\"end\"/></state><final id=\"end\"/></scxml>"
     )
 }
@@ -481,36 +493,121 @@ fn wait_for_deadlock(before: usize, ms: u64) -> Vec<vs::DeadlockReport> {
     vec![]
 }
 
-/// host starts a session (holds E, sleeps before locking P) while a session sends to another one
-fn confirm_e_p(line: Option<(String, u32)>) -> Result<Vec<vs::DeadlockReport>, String> {
-    let (file, line) = line.ok_or("site start#5 not in table")?;
+/// what a corpus scenario found: wait-for cycles, and whether everything it started came to its end
+struct Confirmed {
+    deadlocks: Vec<vs::DeadlockReport>,
+    completed: bool,
+    note: String,
+}
+
+/// waits until `h` has finished, a new deadlock is reported, or `ms` have passed
+fn finished_within(h: &JoinHandle<()>, before: usize, ms: u64) -> bool {
+    let t0 = Instant::now();
+    while t0.elapsed() < Duration::from_millis(ms) {
+        if h.is_finished() {
+            return true;
+        }
+        if vs::deadlocks().len() > before {
+            return false;
+        }
+        std::thread::sleep(Duration::from_millis(2));
+    }
+    h.is_finished()
+}
+
+fn end_sessions(ss: &mut [Sess], before: usize, ms: u64) -> bool {
+    for s in ss.iter() {
+        let _ = s.sender.send(ev("stop"));
+        let _ = s.sender.send(ev(EVENT_CANCEL_SESSION));
+    }
+    let mut all = true;
+    for s in ss.iter_mut() {
+        if let Some(h) = s.thread.take() {
+            if finished_within(&h, before, ms) {
+                let _ = h.join();
+            } else {
+                all = false;
+            }
+        }
+    }
+    all
+}
+
+fn new_deadlocks(before: usize) -> Vec<vs::DeadlockReport> {
+    let all = vs::deadlocks();
+    all[before.min(all.len())..].to_vec()
+}
+
+/// REGRESSION (was the confirmation of `E>P>E`, repaired by /repo 1c1d11d).  Two races of a session
+/// start with a cross-session send, each widened by one injected delay:
+/// (a) the starter sleeps just before it locks the processor (it used to hold E there) while a
+///     session sends to another one (P, G(self), then E);
+/// (b) the sender sleeps just before it locks E in `get_session_sender` (holding P and G(self))
+///     while the host starts a session (E, then Gn and P).
+/// Expected: no wait-for cycle, the starts return and all sessions end.
+fn confirm_e_p(start_p: Option<(String, u32)>, sender_e: Option<(String, u32)>) -> Result<Confirmed, String> {
+    let (file, line) = start_p.ok_or("site start#5 not in table")?;
+    let (file_b, line_b) = sender_e.ok_or("site get_session_sender#0 not in table")?;
     let before = vs::deadlocks().len();
     let executor = FsmExecutor::new_without_io_processor();
     let actions = ActionWrapper::new();
     let xml = peer_doc("rfsm-expression");
     let b = start_session(&xml, &executor, &actions, &[], false)?;
     let a = start_session(&xml, &executor, &actions, &[ParamPair::new("peer", &Data::Integer(b.id as i64))], false)?;
-    std::thread::sleep(Duration::from_millis(30));
-    vs::add_delay(&file, line, 300, 1);
-    let (ex2, ac2, xml2) = (executor.clone(), actions.get_copy(), xml.clone());
-    let _starter = std::thread::Builder::new().name("c17-starter".into()).spawn(move || {
-        let _ = start_session(&xml2, &ex2, &ac2, &[], false);
-    });
-    std::thread::sleep(Duration::from_millis(80));
-    let _ = a.sender.send(ev("go"));
-    let found = wait_for_deadlock(before, 3000);
-    vs::clear_delays();
-    if found.is_empty() {
-        // nothing is stuck: end the sessions
-        for s in [&a, &b] {
-            let _ = s.sender.send(ev(EVENT_CANCEL_SESSION));
+    let mut sessions = vec![a, b];
+    let mut completed = true;
+    let mut note = String::new();
+    for (variant, f, l, first_go_after) in [("a", &file, line, 80u64), ("b", &file_b, line_b, 0u64)] {
+        std::thread::sleep(Duration::from_millis(30));
+        vs::add_delay(f, l, 300, 1);
+        if variant == "b" {
+            // the sender reaches get_session_sender and sleeps there, then the host starts a session
+            let _ = sessions[0].sender.send(ev("go"));
+            std::thread::sleep(Duration::from_millis(80));
+        }
+        let (ex2, ac2, xml2) = (executor.clone(), actions.get_copy(), xml.clone());
+        let slot: Arc<StdMutex<Option<Sess>>> = Arc::new(StdMutex::new(None));
+        let slot2 = slot.clone();
+        let starter = std::thread::Builder::new()
+            .name(format!("c17-starter-{}", variant))
+            .spawn(move || {
+                if let Ok(s) = start_session(&xml2, &ex2, &ac2, &[], false) {
+                    *slot2.lock().unwrap() = Some(s);
+                }
+            })
+            .map_err(|e| e.to_string())?;
+        if variant == "a" {
+            std::thread::sleep(Duration::from_millis(first_go_after));
+            let _ = sessions[0].sender.send(ev("go"));
+        }
+        let ok = finished_within(&starter, before, 3000);
+        vs::clear_delays();
+        if ok {
+            let _ = starter.join();
+            if let Some(s) = slot.lock().unwrap().take() {
+                sessions.push(s);
+            }
+        } else {
+            completed = false;
+            note = format!("variant {}: the session start did not return", variant);
+            break;
         }
     }
-    Ok(found)
+    if new_deadlocks(before).is_empty() {
+        std::thread::sleep(Duration::from_millis(350)); // the delayed sender goes on
+        if !end_sessions(&mut sessions, before, 3000) && completed {
+            completed = false;
+            note = "a session did not end".into();
+        }
+    }
+    Ok(Confirmed { deadlocks: new_deadlocks(before), completed, note })
 }
 
-/// a session invokes a child (G(parent) held, sleeps before locking P) while its delayed send fires
-fn confirm_g_p(line: Option<(String, u32)>) -> Result<Vec<vs::DeadlockReport>, String> {
+/// REGRESSION (was the confirmation of `G>P>G`, repaired by /repo baeeed4): a session invokes a
+/// child — the child start sleeps before it locks the processor; the parent used to hold its global
+/// data there — while the parent's own delayed `<send>` (no id) fires on the timer thread (P, then
+/// G(parent)).  Expected: no wait-for cycle, the child runs, parent and child end.
+fn confirm_g_p(line: Option<(String, u32)>) -> Result<Confirmed, String> {
     let (file, line) = line.ok_or("site start#5 not in table")?;
     let before = vs::deadlocks().len();
     let executor = FsmExecutor::new_without_io_processor();
@@ -519,26 +616,58 @@ fn confirm_g_p(line: Option<(String, u32)>) -> Result<Vec<vs::DeadlockReport>, S
     std::thread::sleep(Duration::from_millis(30));
     vs::add_delay(&file, line, 400, 1);
     let _ = p.sender.send(ev("go"));
-    let found = wait_for_deadlock(before, 3000);
+    let found = wait_for_deadlock(before, 700);
     vs::clear_delays();
+    let mut completed = true;
+    let mut note = String::new();
     if found.is_empty() {
-        let _ = p.sender.send(ev(EVENT_CANCEL_SESSION));
+        let mut ss = vec![p];
+        if !end_sessions(&mut ss, before, 3000) {
+            completed = false;
+            note = "the invoking session did not end".into();
+        }
     }
-    Ok(found)
+    Ok(Confirmed { deadlocks: new_deadlocks(before), completed, note })
 }
 
-/// `<send eventexpr="v" targetexpr="v"/>`: the session thread locks the cell of `v` twice
-fn confirm_d_d() -> Result<Vec<vs::DeadlockReport>, String> {
+/// REGRESSION (repaired by /repo 54484ea): `<send eventexpr="v" targetexpr="v"/>` used to lock the
+/// cell of `v` twice.  Expected: the event is sent to `#_internal` and the session reaches its final state.
+fn confirm_send_relock() -> Result<Confirmed, String> {
     let before = vs::deadlocks().len();
     let executor = FsmExecutor::new_without_io_processor();
     let actions = ActionWrapper::new();
-    let s = start_session(&relock_doc(), &executor, &actions, &[], false)?;
+    let mut s = start_session(&relock_doc(), &executor, &actions, &[], false)?;
+    let _ = s.sender.send(ev("go"));
+    let ended = match s.thread.take() {
+        Some(h) => {
+            let ok = finished_within(&h, before, 3000);
+            if ok {
+                let _ = h.join();
+            }
+            ok
+        }
+        None => false,
+    };
+    if !ended && new_deadlocks(before).is_empty() {
+        let _ = s.sender.send(ev(EVENT_CANCEL_SESSION));
+    }
+    Ok(Confirmed { deadlocks: new_deadlocks(before), completed: ended, note: if ended { String::new() } else { "the session did not reach its final state".into() } })
+}
+
+/// CONFIRMATION of the remaining cycle `D>D` (known finding C17-D-D): `a[a]` in an rfsm-expression
+/// locks the cell of `a` (`ExpressionIndex::execute#0`) and then the same cell as the index (`#1`),
+/// under the session's global data: the session thread never returns.
+fn confirm_d_d() -> Result<Confirmed, String> {
+    let before = vs::deadlocks().len();
+    let executor = FsmExecutor::new_without_io_processor();
+    let actions = ActionWrapper::new();
+    let s = start_session(&index_self_doc(), &executor, &actions, &[], false)?;
     let _ = s.sender.send(ev("go"));
     let found = wait_for_deadlock(before, 3000);
     if found.is_empty() {
         let _ = s.sender.send(ev(EVENT_CANCEL_SESSION));
     }
-    Ok(found)
+    Ok(Confirmed { deadlocks: new_deadlocks(before), completed: true, note: String::new() })
 }
 
 
@@ -669,8 +798,7 @@ fn run_tour(table: &Table, model: &mut Model, rep: &mut Report, seen: &mut Seen,
             actions.add_action("twice", Box::new(Twice));
             let _ = actions.get_map_copy();
             let mut s = start_session(&xml, &executor, &actions, &[], false)?;
-            // the peer documents need a peer that exists (an unknown session id is `todo!()` in
-            // FsmExecutor::send_to_session, property C12): every tour session is its own peer
+            // every tour session is its own peer
             let _ = s.sender.send(ev_peer(s.id));
             std::thread::sleep(Duration::from_millis(15));
             for e in &events {
@@ -722,6 +850,9 @@ fn run_tour(table: &Table, model: &mut Model, rep: &mut Report, seen: &mut Seen,
 
 // ---------------------------------------------------------------------------------------------
 
+/// corpus scenarios: `(name, expects a deadlock)`; the names are the replay keys (`{"confirm": name}`)
+const CORPUS: [&str; 4] = ["E>P>E", "G>P>G", "D>D:send", "D>D"];
+
 pub fn run(args: &Args, model: &mut Model, table: &Table, rep: &mut Report) {
     vs::set_recording(true);
     let mut seen = Seen { sites: BTreeSet::new(), edges: BTreeSet::new(), records: BTreeSet::new() };
@@ -742,13 +873,15 @@ pub fn run(args: &Args, model: &mut Model, table: &Table, rep: &mut Report) {
         return;
     }
 
-    // corpus: the three predicted cycles, confirmed (or not) on the real code
-    for c in ["E>P>E", "G>P>G", "D>D"] {
+    // corpus: regression scenarios of the repaired cycles (a deadlock or a hang there is an unknown
+    // oracle failure) and the confirmation of the remaining cycle D>D on the real code
+    for c in CORPUS {
         run_confirmation(c, table, model, rep, &mut seen, &mut confirmed);
     }
     run_tour(table, model, rep, &mut seen, &mut confirmed);
-    // generated stress scenarios: in worker processes, because about every second scenario really
-    // deadlocks on the unchanged code and its threads (sessions, timers, hosts) can only be leaked
+    // generated stress scenarios: in worker processes, because the threads (sessions, timers, hosts)
+    // of a scenario that deadlocks can only be leaked (before the repairs 1c1d11d / baeeed4 of /repo
+    // about every second scenario did; now none is expected to, and any deadlock is an unknown failure)
     let n: u64 = if args.thorough { 6000 } else { 120 };
     let batch: u64 = if args.thorough { 50 } else { 30 };
     let parallel = if args.thorough { 4 } else { 2 };
@@ -886,28 +1019,65 @@ fn run_confirmation(c: &str, table: &Table, model: &mut Model, rep: &mut Report,
     vs::reset();
     let before = vs::deadlocks().len();
     let line = site_line(table, "src/fsm.rs|start_fsm_with_data_and_finish_mode#5");
+    let line_e = site_line(table, "src/fsm_executor.rs|FsmExecutor::get_session_sender#0");
+    let regression = c != "D>D";
     let c2 = c.to_string();
-    let (_fin, res) = watched(&format!("c17-confirm-{}", c), Duration::from_secs(8), false, move || match c2.as_str() {
-        "E>P>E" => confirm_e_p(line),
+    let (fin, res) = watched(&format!("c17-confirm-{}", c), Duration::from_secs(12), false, move || match c2.as_str() {
+        "E>P>E" => confirm_e_p(line, line_e),
         "G>P>G" => confirm_g_p(line),
+        "D>D:send" => confirm_send_relock(),
         _ => confirm_d_d(),
     });
     vs::clear_delays();
     // whatever deadlocked, also when the set-up itself got stuck
-    let all = vs::deadlocks();
-    let found_now = all[before.min(all.len())..].to_vec();
-    let r: Result<Vec<vs::DeadlockReport>, String> = match res {
-        Some(Err(e)) => Err(e),
-        _ => Ok(found_now),
-    };
+    let found_now = new_deadlocks(before);
     let snap = vs::snapshot();
     check_snapshot(table, &snap, model, rep, &format!("confirm {}", c), seen);
-    match r {
-        Err(e) => rep.disagree(json!({"what": "confirmation scenario could not be set up", "cycle": c, "error": e})),
-        Ok(found) => {
-            rep.count(&format!("confirm_{}_{}", c, if found.is_empty() { "not_reproduced" } else { "deadlocked" }));
-            let out = Outcome { finished: true, sessions: 0, deadlocks: found, blocked: vec![], errors: vec![] };
+    // the scenario must have walked through the sites whose order the repaired cycle was about
+    let must_see: &[&str] = match c {
+        "E>P>E" => &["src/fsm.rs|start_fsm_with_data_and_finish_mode#5", "src/fsm_executor.rs|FsmExecutor::get_session_sender#0", "src/datamodel/mod.rs|Datamodel::send#0"],
+        "G>P>G" => &["src/fsm.rs|start_fsm_with_data_and_finish_mode#5", "src/fsm.rs|Fsm::invoke#3",
+                     "src/executable_content.rs|ExecutableContent for SendParameters::execute#8",
+                     "src/event_io_processor/scxml_event_io_processor.rs|EventIOProcessor for ScxmlEventIOProcessor::send#0"],
+        "D>D:send" => &["src/executable_content.rs|ExecutableContent for SendParameters::execute#3", "src/executable_content.rs|ExecutableContent for SendParameters::execute#6"],
+        _ => &["src/expression_engine/expressions.rs|Expression for ExpressionIndex::execute#1"],
+    };
+    let here: BTreeSet<String> = snap
+        .acquisitions
+        .iter()
+        .filter_map(|(a, _)| table.by_location(a.file, a.line, a.col).map(|s| s.key.clone()))
+        .collect();
+    for k in must_see {
+        if !here.contains(*k) {
+            rep.disagree(json!({"what": "corpus scenario did not reach a lock site it is meant to exercise", "scenario": c, "site": k}));
+        }
+    }
+    match res {
+        Some(Err(e)) => rep.disagree(json!({"what": "corpus scenario could not be set up", "scenario": c, "error": e})),
+        other => {
+            let (completed, note) = match &other {
+                Some(Ok(r)) => (r.completed, r.note.clone()),
+                _ => (false, "the scenario itself did not return".to_string()),
+            };
+            let _ = fin;
+            let kind = if regression { "regression" } else { "confirm" };
+            rep.count(&format!("{}_{}_{}", kind, c, if !found_now.is_empty() { "deadlocked" } else if completed { "no_deadlock" } else { "hung" }));
+            if !regression && found_now.is_empty() {
+                rep.count("confirm_D>D_not_reproduced");
+            }
+            let hung = regression && found_now.is_empty() && !completed;
+            let out = Outcome { finished: true, sessions: 0, deadlocks: found_now, blocked: vec![], errors: vec![] };
             report_deadlocks(table, &out, rep, json!({"confirm": c}), confirmed);
+            if hung {
+                let b: Vec<Value> = vs::blocked()
+                    .iter()
+                    .map(|b| json!({"thread": b.thread_name, "wants": type_class(b.wants.class), "at": format!("{}:{}", short(b.wants.file), b.wants.line), "ms": b.for_millis as u64}))
+                    .collect();
+                rep.oracle_fail(
+                    &format!("C17:hang:regression:{}", c),
+                    json!({"kind": "regression scenario of a repaired lock-order cycle did not come to its end (no wait-for cycle found)", "scenario": c, "note": note, "blocked": b, "replay": {"confirm": c}}),
+                );
+            }
         }
     }
 }
